@@ -314,6 +314,14 @@ def database_roundtrip(ctx, entity_map, label, rng, transport="IP") -> None:
         for step in range(rng.randint(1, 4)):
             what = rng.choice(["state_num", "state_num", "bkey", "config_num", "value", "nothing", "state_none", "bkey_none"])
             st = p1._accessories_state
+            if rng.random() < 0.35:
+                # the accessory ADVERTISES a newer configuration than the one the stored database was fetched under (the re-fetch
+                # has not happened yet / failed: device out of range). What is saved stays labelled with the number it was
+                # fetched under - or a restart would take the old database for the new configuration and never fetch again
+                import types
+
+                p1.description = types.SimpleNamespace(config_num=(cur["config_num"] + rng.choice([1, 7])) % 65536, state_num=cur["state_num"] or 1, name="Sim", id=p1.id, address="10.0.0.5", addresses=["10.0.0.5"], port=51826)
+                ctx.count("updates_with_advertised_configuration_ahead")
             try:
                 if what == "state_num":
                     # the accessory's counter mostly climbs; it also rolls over (65535 -> 1) and starts again at a small
